@@ -150,6 +150,9 @@ def _one(case, lines, outs, i, line, o, ln, v, c, r, model, inverse, seen_styles
                 return f
         else:
             sid, pid = v, r
+            if c == "text" and not _PSEUDO.match(r) and f is None:
+                # the replacement of a text secret is the bare pseudonym: nothing of the secret next to it
+                return Finding("history/text-secret-only-partly-replaced", "%r -> %r: the secret %r became %r" % (line, o, v, r), case)
         style = (ln["form"], tuple(ln["enc"]), c, v if c == "j9" else None)
         if sid in model:
             if style != seen_styles[sid] and new_since.get(sid):
@@ -229,7 +232,7 @@ def _case(draw, max_lines=30):
                 same = [p["value"] for p in pool if p.get("cls") == "text"]
                 if same:
                     base = draw(st.sampled_from(same)).strip("\\")
-                    v = draw(st.sampled_from(["\\" + base, base + "\\"]))
+                    v = draw(st.sampled_from(["\\" + base, base + "\\", base + "{", base + "[", "]" + base, "}" + base]))  # (brackets on the "wrong" side are part of the secret)
             pool.append({"cls": c, "value": v})
     lines = []
     for _ in range(draw(st.integers(2, max_lines)) if not big else draw(st.integers(len(pool), len(pool) + 12))):
